@@ -120,6 +120,14 @@ CLAIMED = {
         note="The property proper — block spectra = spectrum of the full 2^N matrix, orthonormality, H v = E v — is a value-level statement about Eigen's solver and is NOT decided; this check only guards the code around it.",
         technique="ordering/dominance rules on the CFG, key matching of accessors, index-space role typing",
         ref="DESIGN.md §3 C03"),
+    "C05": dict(
+        text="Structural necessary conditions of the symbolic algebra, on all CFG paths: in normalize_and_insert every transposition of neighbours flips the sign exactly once under prev > cur, the contraction (under prev == flip(cur)) is emitted "
+             "before the swap with the unflipped coefficient and the monomial minus positions n-1,n, equal neighbours annihilate the monomial; every in-place coefficient accumulation is followed by the near-zero erasure; += and -= differ only "
+             "in sign; actRight applies factors right to left with the Pauli test before the bit write and the Jordan-Wigner sign over occupied modes in [0,ind); commutator/anticommutator/commutes are AB-BA, AB+BA, AB==BA; the N and S_z "
+             "shortcuts count exactly the modes their polynomial forms are built from; equality compares whole monomials (size before three-iterator std::equal).",
+        note="That the recursive bubble sort normal-orders every polynomial correctly (associativity, CAR, agreement with Jordan-Wigner matrices) needs an inductive proof and is NOT decided. Two genuine defects found by R5/R6 were repaired (D13, D14).",
+        technique="pairing/ordering rules over clang AST+CFG with branch facts, sibling-structure comparison, typed lint for prefix equality",
+        ref="DESIGN.md §3 C05"),
 }
 
 NOT_YET = {}
